@@ -815,6 +815,17 @@ func (e *exec) doOp(op Op) {
 		e.write(in, op.N) // producers of removed channels keep pushing
 		e.wait()
 	case "C":
+		if op.M > 0 {
+			// all inputs of priority P and above at once
+			for _, in := range e.inputs {
+				if in.p >= op.P && !in.closeReq && !in.removed.Load() {
+					in.closeReq = true
+					in.cmds <- wcmd{close: true}
+				}
+			}
+			e.wait()
+			return
+		}
 		in := e.inputs[op.P]
 		if in == nil || in.closeReq || in.removed.Load() {
 			noop()
